@@ -16,6 +16,8 @@ import (
 	"verif/engine/sx"
 )
 
+var nativeHooks map[string]string
+
 var (
 	verifDir = envOr("VERIF_DIR", "/verif")
 	repoDir  = envOr("VERIF_REPO", "/repo")
@@ -225,6 +227,11 @@ func cmdCheck(args []string) int {
 		return 2
 	}
 	loadS := time.Since(tl).Seconds()
+	nativeHooks, err = P.GenerateNativeHooks(repoDir, filepath.Join(outDir, "nativehooks"))
+	if err != nil {
+		fmt.Println(err)
+		return 2
+	}
 	known := loadKnown()
 	var evs []oblEvidence
 	funcs := map[string]bool{}
@@ -269,7 +276,7 @@ func cmdCheck(args []string) int {
 		if *logSMT {
 			cfg.LogDir = filepath.Join(outDir, "smt")
 		}
-		E, err := sx.NewEngine(P, cfg)
+		E, err := sx.NewEngine(P, cfg, strings.Split(o.Opts["use"], ","))
 		if err != nil {
 			fmt.Println(err)
 			return 2
@@ -343,7 +350,7 @@ func cmdCheck(args []string) int {
 			idx++
 			cexPath := filepath.Join(outDir, fmt.Sprintf("%s.%d.cex.json", o.ID, idx))
 			doc := map[string]interface{}{"property": prop, "obligation": o.ID, "package": o.Pkg, "harness": o.Func, "kind": v.Kind,
-				"msg": v.Msg, "where": v.Where, "model": v.Model, "decisions": v.Decisions, "choices": v.Choices}
+				"msg": v.Msg, "where": v.Where, "use": o.Opts["use"], "model": v.Model, "decisions": v.Decisions, "choices": v.Choices}
 			b, _ := json.MarshalIndent(doc, "", " ")
 			os.WriteFile(cexPath, b, 0o644)
 			ve := vioEvidence{Kind: v.Kind, Msg: v.Msg, Where: v.Where, Cex: cexPath, Replay: "skipped"}
@@ -495,8 +502,22 @@ func nativeReplay(cexPath, genDir string) (bool, string) {
 	var doc struct {
 		Package string `json:"package"`
 		Harness string `json:"harness"`
+		Use     string `json:"use"`
+		Kind    string `json:"kind"`
+		Msg     string `json:"msg"`
 	}
 	json.Unmarshal(b, &doc)
+	if nativeHooks == nil && doc.Use != "" {
+		// stand-alone replay: hooks need the loaded program
+		P, err := sx.Load(repoDir, []string{filepath.Join(verifDir, "harness"), genDir}, []string{doc.Package})
+		if err != nil {
+			return false, "HARNESS-ERROR: " + err.Error()
+		}
+		nativeHooks, err = P.GenerateNativeHooks(repoDir, filepath.Join(filepath.Dir(cexPath), "nativehooks"))
+		if err != nil {
+			return false, err.Error()
+		}
+	}
 	if genDir == "" {
 		genDir = filepath.Join(verifDir, "out", "gen-replay")
 		all, err := sx.Discover(filepath.Join(verifDir, "harness"))
@@ -510,7 +531,7 @@ func nativeReplay(cexPath, genDir string) (bool, string) {
 	ovDir := filepath.Join(filepath.Dir(cexPath), "overlay")
 	os.MkdirAll(ovDir, 0o755)
 	ovJSON := filepath.Join(ovDir, "overlay.json")
-	if err := sx.WriteOverlayJSON(repoDir, []string{filepath.Join(verifDir, "harness"), genDir}, ovJSON); err != nil {
+	if err := sx.WriteOverlayJSON(repoDir, []string{filepath.Join(verifDir, "harness"), genDir}, ovJSON, nativeHooks); err != nil {
 		return false, err.Error()
 	}
 	outJSON := cexPath + ".native.json"
@@ -518,7 +539,7 @@ func nativeReplay(cexPath, genDir string) (bool, string) {
 	cmd := exec.Command("go", "test", "-overlay", ovJSON, "-ldflags=-checklinkname=0", "-vet=off", "-count=1", "-run", "^TestVerifReplay$", "-timeout", "300s", "./"+doc.Package)
 	cmd.Dir = repoDir
 	cmd.Env = append(os.Environ(), "GOFLAGS=-mod=mod", "GOPROXY=off", "GOSUMDB=off", "GOTOOLCHAIN=local",
-		"VERIF_HARNESS="+doc.Harness, "VERIF_INPUT="+cexPath, "VERIF_OUTPUT="+outJSON)
+		"VERIF_HARNESS="+doc.Harness, "VERIF_INPUT="+cexPath, "VERIF_OUTPUT="+outJSON, "VERIF_USE="+doc.Use)
 	out, _ := cmd.CombinedOutput()
 	rb, err := os.ReadFile(outJSON)
 	if err != nil {
@@ -529,11 +550,15 @@ func nativeReplay(cexPath, genDir string) (bool, string) {
 	}
 	json.Unmarshal(rb, &res)
 	for _, f := range res.Failed {
-		if f != "ASSUME-FAILED" {
+		// the SAME failure must show natively: the assertion with this message, or a panic
+		if doc.Kind == "panic" && strings.HasPrefix(f, "PANIC:") {
+			return true, string(out)
+		}
+		if doc.Kind != "panic" && f == doc.Msg {
 			return true, string(out)
 		}
 	}
-	return false, string(out)
+	return false, string(out) + fmt.Sprintf("\nnative failures: %v", res.Failed)
 }
 
 // validateWitnesses runs the harness natively on each witness input and compares assertion
@@ -541,11 +566,12 @@ func nativeReplay(cexPath, genDir string) (bool, string) {
 func validateWitnesses(o sx.Obligation, ws []*sx.Witness, genDir, outDir string) (int, []string, error) {
 	type item struct {
 		Harness string            `json:"harness"`
+		Use     string            `json:"use"`
 		Model   map[string]string `json:"model"`
 	}
 	var items []item
 	for _, w := range ws {
-		items = append(items, item{o.Func, w.Model})
+		items = append(items, item{o.Func, o.Opts["use"], w.Model})
 	}
 	batch := filepath.Join(outDir, o.ID+".witnesses.json")
 	b, _ := json.MarshalIndent(items, "", " ")
@@ -555,7 +581,7 @@ func validateWitnesses(o sx.Obligation, ws []*sx.Witness, genDir, outDir string)
 	ovDir := filepath.Join(outDir, "overlay")
 	os.MkdirAll(ovDir, 0o755)
 	ovJSON := filepath.Join(ovDir, "overlay.json")
-	if err := sx.WriteOverlayJSON(repoDir, []string{filepath.Join(verifDir, "harness"), genDir}, ovJSON); err != nil {
+	if err := sx.WriteOverlayJSON(repoDir, []string{filepath.Join(verifDir, "harness"), genDir}, ovJSON, nativeHooks); err != nil {
 		return 0, nil, err
 	}
 	cmd := exec.Command("go", "test", "-overlay", ovJSON, "-ldflags=-checklinkname=0", "-vet=off", "-count=1", "-run", "^TestVerifBatch$", "-timeout", "600s", "./"+o.Pkg)
